@@ -326,6 +326,13 @@ def mapOpt (f : Bytes → Option Bytes) : List Bytes → Option (List Bytes)
 /-- C strings handed to `qmail_from` / `qmail_to` stop at the first NUL -/
 def cstr (s : Bytes) : Bytes := s.takeWhile (· ≠ 0)
 
+/-- `recipstrategy` after `if (recipstrategy == RECIP_DEFAULT) recipstrategy = (*argv ? RECIP_ARGS : RECIP_HEADER)` -/
+def effStrategy (a : Args) : Nat := if a.strategy = 1 then (if a.recips.isEmpty then 3 else 2) else a.strategy
+
+/-- `exitnicely`: the recipients handed to `qmail_to`, in order -/
+def envelopeRecips (strategy : Nat) (reciplist : List Bytes) (st : ISt) : List Bytes :=
+  reciplist ++ (if strategy ≠ 2 then (if isResent st then st.hrrlist else st.hrlist) else [])
+
 /-- the whole program -/
 def inject (e : Env) (a : Args) (inp : Bytes) : Result :=
   -- getcontrols
@@ -339,11 +346,10 @@ def inject (e : Env) (a : Args) (inp : Bytes) : Result :=
     match sender0 with
     | none => { exit := 100 }
     | some sender0 =>
-    let strategy := if a.strategy = 1 then (if a.recips.isEmpty then 3 else 2) else a.strategy
+    let strategy := effStrategy a
     match (if strategy ≠ 3 then mapOpt (argAddress c) a.recips else some []) with
     | none => { exit := 100 }
     | some reciplist =>
-    let flagrh := strategy ≠ 2
     let hb := headerbody inp
     let st := hb.fields.foldl (doheaderfield e c) { sender := sender0 }
     match st.dead with
@@ -360,7 +366,7 @@ def inject (e : Env) (a : Args) (inp : Bytes) : Result :=
     let sender := st.sender.getD []
     let rp := if a.queue then [] else str "Return-Path: <" ++ quote2 (cstr sender) ++ str ">\n"
     let msg := rp ++ gen ++ st.savedh.flatten ++ hb.body.flatten
-    let recips := reciplist ++ (if flagrh then (if isResent st then st.hrrlist else st.hrlist) else [])
+    let recips := envelopeRecips strategy reciplist st
     if a.queue then { exit := 0, sender := cstr sender, recips := recips.map cstr, msg := msg }
     else { exit := 0, msg := msg }
   | _, _, _ => { exit := 100 }
